@@ -1,5 +1,5 @@
 """C03 - the canonical string is a fixed point of parsing (decided part: premises of idempotence)."""
-from ..rules import host, order, port, template
+from ..rules import flow, host, order, port, template
 from ..rules.kindrules import make_kinds
 from .common import quoter_audits, table_checks
 
@@ -28,3 +28,4 @@ def run(ctx):
     host.h1(ctx)
     host.h2(ctx)
     port.prt2(ctx)
+    flow.f2(ctx, K)     # __str__ re-assembles the authority from the bracketed host and the raw userinfo
